@@ -28,6 +28,7 @@ type tMsg struct {
 	M       int      `json:"m"`
 	Name    string   `json:"name"`
 	HasCtor int      `json:"hasctor"`
+	CtorTyp string   `json:"ctortype"`
 	HasType int      `json:"hastype"`
 	NF      int      `json:"nf"`
 	IsKnown int      `json:"isknown"`
@@ -93,6 +94,10 @@ func exportTables(p *Profile, sch *Schema) map[string]interface{} {
 		var ctor reflect.Value
 		if known[m] && tm.HasCtor == 1 {
 			ctor = fit.VerifNewMesg(fit.MesgNum(m))
+			tm.CtorTyp = ctor.Type().Name()
+			if t != nil && ctor.Type() != t {
+				ctor = reflect.Value{} // the constructor builds another type: reported by TLC; nothing to read field by field
+			}
 		}
 		for _, f := range fs {
 			if f == nil {
@@ -235,6 +240,15 @@ func runC15(c *Ctx) {
 	}
 	for _, m := range mm {
 		c.report(fmt.Sprintf("tables:%v:m%v.f%v", m["what"], m["m"], m["n"]), fmt.Sprintf("the compiled tables violate ProfileWellFormed: %v", m), m)
+	}
+	if len(mm) > 0 {
+		// the tables are inconsistent: pushing messages through the decoder and
+		// encoder by reflection would only re-discover that (or trip the harness)
+		c.Cov["evaluations"] = len(tab["msgs"].([]tMsg))
+		c.Cov["distinct_nontrivial"] = len(tab["msgs"].([]tMsg))
+		c.Cov["rule"] = "table entries (run stopped at the first inconsistencies)"
+		c.sample(mm[0])
+		c.finish()
 	}
 	msgs := tab["msgs"].([]tMsg)
 	nf, matched := 0, 0
